@@ -170,7 +170,21 @@ func (t *vtree) extend(rng *rand.Rand, parent *vblk, n int, ct vcontent, fixedOf
 		uncled    map[common.Hash]bool
 	}
 	pends := make([]pend, n)
-	blocks, receipts := GenerateChain(context.TODO(), t.cfg, parent.b, aquahash.NewFaker(), t.gendb, n, func(i int, bg *BlockGen) {
+	var (
+		blocks   []*types.Block
+		receipts []types.Receipts
+	)
+	// the repository's own block builder (GenerateChain -> ApplyTransaction -> StateDB) crashing on a valid sequence of blocks is an
+	// observation about the code, not about the driver: it is carried to the top of the test as a genFailure and recorded
+	defer func() {
+		if r := recover(); r != nil {
+			if _, ok := r.(genFailure); ok {
+				panic(r)
+			}
+			panic(genFailure{fmt.Sprint(r)})
+		}
+	}()
+	blocks, receipts = GenerateChain(context.TODO(), t.cfg, parent.b, aquahash.NewFaker(), t.gendb, n, func(i int, bg *BlockGen) {
 		// ancestry of the block being built
 		par := cur
 		if i > 0 {
@@ -471,4 +485,22 @@ func (t *vtree) addTx(b *BlockGen, tx *types.Transaction) {
 	}
 	b.txs = append(b.txs, tx)
 	b.receipts = append(b.receipts, receipt)
+}
+
+type genFailure struct{ err string }
+
+// recordGenFailure is deferred by the chain-family tests: a crash of the block builder becomes a "genfail" trace line
+func recordGenFailure(w *vwriter, stat func()) {
+	if r := recover(); r != nil {
+		g, ok := r.(genFailure)
+		if !ok {
+			panic(r)
+		}
+		e := g.err
+		if len(e) > 200 {
+			e = e[:200]
+		}
+		w.emit(map[string]interface{}{"e": "genfail", "err": e})
+		stat()
+	}
 }
